@@ -74,10 +74,50 @@ class Run:
         return seen
         self.dt = d["dt"]
 
+    def _index(self):
+        if getattr(self, "_fid_by_frame", None) is None:
+            self._fid_by_frame = dict(((nm[0], tuple(nm[1])), fid) for fid, nm in self.frames.items())
+            for k, v in self.facts.items():
+                if isinstance(v, dict):
+                    v["_run"] = self
+        return self._fid_by_frame
+
+    def chain(self, v):
+        """activations enclosing a fact, outermost first: [(fid, fn, bb of the fact's position in that activation)]"""
+        idx = self._index()
+        ch = list(v.get("stack") or ()) + [(v["fn"], v["bb"])]
+        out = []
+        for i, (fn, bb) in enumerate(ch):
+            fid = idx.get((fn, tuple(ch[:i])))
+            out.append((fid, fn, bb))
+        return out
+
+    def pos_in(self, v, fid):
+        """block of the fact's position inside activation `fid` (the call site if the fact lies in a callee), or None"""
+        for (f, fn, bb) in self.chain(v):
+            if f == fid:
+                return (fn, bb)
+        return None
+
+    def common(self, v, w):
+        """innermost activation containing both facts: (fid, fn, bb_v, bb_w) or None"""
+        cv, cw = self.chain(v), self.chain(w)
+        res = None
+        for (a, b) in zip(cv, cw):
+            if a[0] == b[0] and a[1] == b[1] and a[0] is not None:
+                res = (a[0], a[1], a[2], b[2])
+                if a[2] != b[2]:
+                    break
+            else:
+                break
+        return res
+
     def by_kind(self, kind):
+        self._index()
         return [v for k, v in self.facts.items() if k[0] == kind]
 
     def items(self, kind):
+        self._index()
         return [(k, v) for k, v in self.facts.items() if k[0] == kind]
 
 
